@@ -1756,8 +1756,11 @@ fn predict<I: SignedInteger>(coefficients: &[i64], qlp_shift: u32, channel: &mut
                     .iter()
                     .rev()
                     .zip(coefficients)
-                    .map(|(x, y)| (*x).into() * y)
-                    .sum::<i64>()
+                    // wide (33-bit) subframes of a malformed frame can grow without
+                    // bound, so the accumulation wraps instead of overflowing
+                    .fold(0i64, |acc, (x, y)| {
+                        acc.wrapping_add((*x).into().wrapping_mul(*y))
+                    })
                     >> qlp_shift,
             ),
         );
